@@ -117,6 +117,8 @@ def opHist : OpFn := fun view inp out => do
       if !v.corr && corr then
         corr := false; corrClause := s!"step {i}: {v.clause}"; corrDetail := v.detail
       if !v.spec then fails := fails ++ [(v.clause, v.feat, v.detail)]
+      for c in v.allClauses do
+        if c != v.clause then fails := fails ++ [(c, v.feat, v.detail)]
       -- C10: a run directly after a successful run with the same flags (other than generate-all) is a no-op
       if prevRun == some strat && strat < 16 && fault.isNone && (!v.planned.isEmpty || !o.writes.isEmpty) then
         fails := fails ++ [("C10: re-running sign right after a successful run is not a no-op", Json.mkObj [], Json.mkObj [("planned", toJson v.planned), ("step", i)])]
